@@ -64,22 +64,35 @@ def listUpdates (ops : List Op) : List (Ts × JVal × Ts) :=
     | .update _ tg vs => (tg.zip (vs.zip (delimSeq o.id.ts tg.length)))
     | _ => []
 
-/-- insertion sort of siblings by descending timestamp -/
-def insertDesc (e : Elem) : List Elem → List Elem
-  | [] => [e]
-  | x :: xs => if x.id.cmp e.id == .gt then x :: insertDesc e xs else e :: x :: xs
-
-def sortDesc (l : List Elem) : List Elem := l.foldr insertDesc []
-
-/-- depth-first, parents before children, siblings newest first -/
-def dfs (all : List Elem) : Nat → Ts → List Elem
+/-- the path of an element: the identities from its top-level ancestor down to itself
+    (the parent of a batch's first element is the anchor, of a later one the previous element) -/
+def pathOf (all : List Elem) : Nat → Ts → List Ts
   | 0, _ => []
-  | fuel + 1, p =>
-    (sortDesc (all.filter fun e => e.parent = p)).flatMap fun e => e :: dfs all fuel e.id
+  | fuel + 1, id =>
+    if id = Ts.oldest then []
+    else match all.find? (fun e => e.id = id) with
+      | some e => pathOf all fuel e.parent ++ [id]
+      | none => [id]
 
+/-- path order: an ancestor precedes its descendants; siblings (and their subtrees) are ordered
+    newest first by `Ts.cmp` -/
+def pathLt : List Ts → List Ts → Bool
+  | [], [] => false
+  | [], _ :: _ => true
+  | _ :: _, [] => false
+  | a :: as, b :: bs =>
+    if a = b then pathLt as bs else a.cmp b == .gt
+
+def insertByPath (all : List Elem) (fuel : Nat) (e : Elem) : List Elem → List Elem
+  | [] => [e]
+  | x :: xs =>
+    if pathLt (pathOf all fuel e.id) (pathOf all fuel x.id) then e :: x :: xs
+    else x :: insertByPath all fuel e xs
+
+/-- the list order determined by the set of insert operations alone -/
 def listOrder (ops : List Op) : List Elem :=
   let all := listElems ops
-  dfs all (all.length + 1) Ts.oldest
+  all.foldr (insertByPath all (all.length + 1)) []
 
 /-- current value of a live element: its newest update, else its inserted value -/
 def elemValue (ops : List Op) (e : Elem) : JVal :=
